@@ -139,3 +139,39 @@ package filecachepb
 //@             readNets(asptr(a, access.DefaultProfile).allowedNets, x.AllowlistCidr) && readNets(asptr(a, access.DefaultProfile).blockedNets, x.BlocklistCidr) &&
 //@             readASNs(asptr(a, access.DefaultProfile).allowedASN, x.AllowlistAsn) && readASNs(asptr(a, access.DefaultProfile).blockedASN, x.BlocklistAsn) &&
 //@             asptr(a, access.DefaultProfile).blocklistDomainRules == x.BlocklistDomainRules
+
+// ---------------------------------------------------------------------------
+// C14 / C03, file-cache codec, device authentication: what is read back for a
+// device is the authentication it was stored with - disabled stays disabled,
+// DoH-only stays DoH-only, and enabled settings always come with a usable
+// authenticator (the device finder calls it for every DoH request with a
+// password): no password hash stored means "any password", as it does when the
+// settings come from the backend.
+//@ import agdpasswd github.com/AdguardTeam/AdGuardDNS/internal/agdpasswd
+//@ import agd github.com/AdguardTeam/AdGuardDNS/internal/agd
+//@ func agdpasswd.NewPasswordHashBcrypt
+//@   modifies nothing
+//@   ensures p != nil && fresh(p)
+//@ pred okAuth(p agdpasswd.Authenticator) = istype(p, agdpasswd.AllowAuthenticator) || (isptr(p, agdpasswd.PasswordHashBcrypt) && asptr(p, agdpasswd.PasswordHashBcrypt) != nil)
+//@ func dohPasswordToInternal
+//@   property C14 C03
+//@   requires isptr(pbp, AuthenticationSettings_PasswordHashBcrypt) ==> asptr(pbp, AuthenticationSettings_PasswordHashBcrypt) != nil
+//@   modifies nothing
+//@   ensures a-usable-authenticator-or-an-error: err == nil ==> okAuth(p)
+//@   ensures no-hash-means-any-password: pbp == nil ==> err == nil && istype(p, agdpasswd.AllowAuthenticator)
+//@   ensures a-stored-hash-is-checked: isptr(pbp, AuthenticationSettings_PasswordHashBcrypt) ==> err == nil && isptr(p, agdpasswd.PasswordHashBcrypt)
+//@ func (*AuthenticationSettings).toInternal
+//@   property C14 C03
+//@   nilrecv
+//@   requires x != nil && isptr(x.DohPasswordHash, AuthenticationSettings_PasswordHashBcrypt) ==> asptr(x.DohPasswordHash, AuthenticationSettings_PasswordHashBcrypt) != nil
+//@   modifies nothing
+//@   ensures not-stored-means-disabled: x == nil ==> err == nil && s != nil && !s.Enabled && okAuth(s.PasswordHash)
+//@   ensures stored-means-enabled-with-an-authenticator: x != nil && err == nil ==> s != nil && s.Enabled && s.DoHAuthOnly == x.DohAuthOnly && okAuth(s.PasswordHash)
+//@ func authToProtobuf
+//@   property C14 C03
+//@   requires s != nil && s.Enabled ==> istype(s.PasswordHash, agdpasswd.AllowAuthenticator) || (isptr(s.PasswordHash, agdpasswd.PasswordHashBcrypt) && ref(s.PasswordHash) != 0)
+//@   modifies nothing
+//@   ensures disabled-is-not-stored: (s == nil || !s.Enabled) ==> a == nil
+//@   ensures enabled-is-stored-as-it-is: s != nil && s.Enabled ==> a != nil && a.DohAuthOnly == s.DoHAuthOnly &&
+//@             (istype(s.PasswordHash, agdpasswd.AllowAuthenticator) ==> a.DohPasswordHash == nil) &&
+//@             (isptr(s.PasswordHash, agdpasswd.PasswordHashBcrypt) ==> isptr(a.DohPasswordHash, AuthenticationSettings_PasswordHashBcrypt))
